@@ -38,6 +38,10 @@ class HarnessError(Exception):
     """Something in the machinery (not in sqlglot) is broken: exit 2."""
 
 
+class TranslateOnly(Exception):
+    """VERIF_TRANSLATE_ONLY=1: stop after the Generated/*.lean files have been rewritten (python3 -m vf.regen)."""
+
+
 def strip_lean_comments(src: str) -> str:
     out = []
     i, n, depth = 0, len(src), 0
@@ -171,6 +175,15 @@ class Check:
         if old != text:
             with open(path, "w", encoding="utf-8") as f:
                 f.write(text)
+            if old is not None and os.path.realpath(REPO) != "/repo":
+                # a run against a scratch tree (VERIF_REPO) must not leave its tables behind in /verif
+                import atexit
+
+                def _restore(path=path, old=old):
+                    with open(path, "w", encoding="utf-8") as f:
+                        f.write(old)
+
+                atexit.register(_restore)
         self.cov.setdefault("generated_tables", {})[name] = {
             "bytes": len(text.encode("utf-8")),
             "sha": hashlib.sha256(text.encode("utf-8")).hexdigest()[:16],
@@ -249,6 +262,8 @@ class Check:
 
         Returns True iff every obligation was discharged. On failure records self.broken entries.
         """
+        if os.environ.get("VERIF_TRANSLATE_ONLY"):
+            raise TranslateOnly()
         t0 = time.time()
         self.obligations += len(theorems)
         ok, out = self.lean_build(modules)
@@ -473,6 +488,9 @@ def main_entry(argv: list[str]) -> int:
     try:
         mod.run(chk)
         return chk.finish()
+    except TranslateOnly:
+        print(f"[{pid}] Generated/{pid}.lean regenerated from {REPO}", flush=True)
+        return 0
     except HarnessError as e:
         print(f"[{pid}] HARNESS ERROR: {e}", flush=True)
         return 2
